@@ -30,7 +30,7 @@ ASSUMPTIONS = [
 CASE_TIMEOUT = 900
 MAX_JOBS = 16
 
-VARIANTS = ["databook", "databook_years", "databook_const_and_years", "transfer", "interaction", "spend", "unitcost", "outcome_interaction", "interaction_outcome_fullcov", "zero", "none"]
+VARIANTS = ["databook", "databook_years", "databook_const_and_years", "databook_zero_constant", "transfer", "interaction", "spend", "unitcost", "outcome_interaction", "interaction_outcome_fullcov", "zero", "none"]
 
 
 def make_world(variant):
@@ -55,6 +55,9 @@ def make_world(variant):
             p["sigma"] = {"databook": 0.05, "zero": 0.0, "databook_years": 0.05, "databook_const_and_years": 0.05}.get(variant)
             if variant in ("databook_years", "databook_const_and_years"):
                 p["val"] = {"t": [2000.0, 2002.0], "v": [0.3, 0.2]}  # the only uncertain row has year-specific values
+    if variant == "databook_zero_constant":
+        # the only uncertain quantity is entered as the constant 0 (an output-only quantity without limits, so that every draw is visible in the result)
+        spec["pars"].append(dict(name="zz", fmt="number", val=0.0, sigma=0.05))
     if variant == "spend":
         spec["progs"]["progs"][0]["spend_sigma"] = 100.0
     if variant == "unitcost":
@@ -120,11 +123,17 @@ def cases(tier):
                     for W in (0, 1, 2, 3, 4):  # 0 = serial
                         if tier == "quick" and entry == "ensemble" and (N > 4 or prior == "seed1"):
                             continue
+                        if variant == "databook_zero_constant" and entry == "ensemble":
+                            continue  # the ensemble's mapping function does not look at the output-only quantity
                         yield dict(kind="virtual", variant=variant, entry=entry, prior=prior, N=N, W=W)
     for entry in ("project", "ensemble"):
         for N in (2, 3, 4):
             for W in (0, 1, 2, 3):
                 yield dict(kind="retry", variant=VARIANTS[0], entry=entry, prior="seed0", N=N, W=W, dev=1 if tier == "quick" else 2)
+    for entry in ("project", "ensemble"):
+        for N in (2, 3):
+            for W in (0, 1, 2):
+                yield dict(kind="resample", entry=entry, N=N, W=W)
     yield dict(kind="real", N=4, W=4)
     yield dict(kind="real", N=8, W=2)
     yield dict(kind="fork")
@@ -249,6 +258,32 @@ def run_retry(case):
     return dict(states=nexec, transitions=nsims, traces=nexec, nontrivial=True, violations=vs[:3], counters=dict(schedules_x_refusal_placements=nexec, sampled_sims=nsims))
 
 
+def run_resample(case):
+    """one parameter set / program set used for two sampling calls in a row; between the calls the uncertainty is moved to quantities that had none"""
+    entry, N, W = case["entry"], case["N"], case["W"]
+    w = make_world("databook")
+    vs = []
+    scheds = [None] if W == 0 else list(schedules(N, W))
+    nexec = 0
+    for sched in scheds:
+        w = make_world("databook")
+        set_prior("seed0")
+        one_execution(w, entry, N, W, sched)  # first call (vr is the uncertain quantity)
+        # the user revises the uncertainties: vr is now certain, the death rate is the only uncertain quantity
+        for ts in w.parset.pars["vr"].ts.values():
+            ts.sigma = None
+        for ts in w.parset.pars["dr"].ts.values():
+            ts.sigma = 0.002
+        ds = one_execution(w, entry, N, W, sched)
+        nexec += 1
+        lab = f"second sampling call on the same objects, {entry} N={N} " + ("serial" if W == 0 else f"W={W} schedule={list(sched)}")
+        if len(set(ds)) < len(ds):
+            dup = [i for i, d in enumerate(ds) if ds.index(d) != i]
+            vs.append(V("duplicate-samples-on-second-call", f"{lab}: after the uncertainty was moved to other quantities, samples {[(ds.index(ds[i]), i) for i in dup]} are identical", dict(schedule=sched and list(sched))))
+            break
+    return dict(states=nexec, transitions=nexec * N * 2, traces=nexec, nontrivial=True, violations=vs[:3], counters=dict(resample_executions=nexec))
+
+
 def run_real(case):
     """one real multiprocessing run: the equality pattern predicted by the virtual pool for SOME schedule must be the observed one (all-distinct in both or in neither)"""
     N, W = case["N"], case["W"]
@@ -297,4 +332,4 @@ def run_fork(case):
 
 
 def run_case(case):
-    return dict(virtual=run_virtual, retry=run_retry, real=run_real, fork=run_fork)[case["kind"]](case)
+    return dict(virtual=run_virtual, retry=run_retry, resample=run_resample, real=run_real, fork=run_fork)[case["kind"]](case)
